@@ -212,6 +212,8 @@ func runC17(c *Ctx) {
 	ruleHeaderEveryColumn(c, p, "C17.descriptor")
 	ruleVarintFastPath(c, p, "C17.varint")
 	ruleOpenCodes(c, p, "C17.open-codes")
+	ruleGateCompare(c, p, "C17.gate-compare")
+	ruleEncodeVerbatim(c, p, "C17.verbatim")
 	ruleReadSizeUncapped(c, p, "C17.readsize")
 	ruleReadFull(c, p, "C17.readfull")
 	ruleVersionPassThrough(c, p, "C17.version-through")
@@ -1692,4 +1694,118 @@ func ruleReadSizeUncapped(c *Ctx, p *core.Program, rule string) {
 	}
 	c.R.Count("raw read primitives", n)
 	c.R.Floor(rule, cfg, n, 1)
+}
+
+// ruleGateCompare (C17 / C02): a hand-written feature gate includes the threshold revision.
+func ruleGateCompare(c *Ctx, p *core.Program, rule string) {
+	c.R.Rule(rule, "wherever package proto or ch compares a revision with the threshold of a feature directly (the result of Feature.Version(), or a Feature constant converted to int) instead of calling Feature.In, the comparison includes the threshold: `v >= F` / `v < F`, never `v > F` / `v <= F` - Feature.In is `>=`, and a path that gates one field with `>` skips it at exactly the threshold revision while its sibling paths and the encoder write it")
+	cfg := p.Cfg.Name
+	isThreshold := func(v ssa.Value) bool {
+		v = stripConv(v)
+		if core.IsNamed(v.Type(), core.PkgProto, "Feature") {
+			return true // a Feature value compared as an integer (int(f) <= v)
+		}
+		if cl, ok := v.(*ssa.Call); ok {
+			if f := core.CalleeFunc(cl); f != nil && core.IsMethod(f, core.PkgProto, "Feature", "Version") {
+				return true
+			}
+		}
+		if cv, ok := v.(*ssa.Convert); ok && core.IsNamed(cv.X.Type(), core.PkgProto, "Feature") {
+			return true
+		}
+		if k, ok := v.(*ssa.Const); ok && core.IsNamed(k.Type(), core.PkgProto, "Feature") {
+			return true
+		}
+		return false
+	}
+	n := 0
+	bad := false
+	for _, fn := range p.Funcs() {
+		if pkgOf(fn) == nil || (pkgOf(fn).Path() != core.PkgProto && pkgOf(fn).Path() != core.PkgCh) || fn.Blocks == nil {
+			continue
+		}
+		for _, b := range fn.Blocks {
+			for _, in := range b.Instrs {
+				bo, ok := in.(*ssa.BinOp)
+				if !ok {
+					continue
+				}
+				op := bo.Op
+				var other ssa.Value
+				switch {
+				case isThreshold(bo.Y):
+					other = bo.X
+				case isThreshold(bo.X):
+					other = bo.Y
+					switch op {
+					case token.LSS:
+						op = token.GTR
+					case token.GTR:
+						op = token.LSS
+					case token.LEQ:
+						op = token.GEQ
+					case token.GEQ:
+						op = token.LEQ
+					}
+				default:
+					continue
+				}
+				if isThreshold(other) {
+					continue
+				}
+				switch op {
+				case token.GEQ, token.LSS:
+					n++
+				case token.GTR, token.LEQ:
+					n++
+					bad = true
+					c.R.Bad(rule, core.FuncName(fn)+sprintf("/gate#%d", n), cfg, p.Pos(bo.Pos()), "a revision is compared with a feature threshold excluding the threshold itself: at exactly that revision this path disagrees with Feature.In")
+				}
+			}
+		}
+	}
+	if !bad {
+		c.R.Ok(rule, "gates", cfg, "", sprintf("%d direct comparisons with feature thresholds, all inclusive", n))
+	}
+	c.R.Count("direct comparisons with feature thresholds", n)
+	c.R.Floor(rule, cfg, n, 1)
+}
+
+// ruleEncodeVerbatim (C17): an encoder writes its fields, not a clamped version of them.
+func ruleEncodeVerbatim(c *Ctx, p *core.Program, rule string) {
+	c.R.Rule(rule, "in the Encode / EncodeAware methods of the protocol messages of package proto no value handed to a Buffer.Put* call is the result of the builtin min or max over a field of the message: a saturating clamp in the encoder (never announce more than the library's own revision) makes decode(encode(x)) differ from x for every value beyond the bound and lets the two ends of a connection gate later packets on different revisions")
+	cfg := p.Cfg.Name
+	n := 0
+	bad := false
+	for _, fn := range p.Funcs() {
+		if pkgOf(fn) == nil || pkgOf(fn).Path() != core.PkgProto || fn.Blocks == nil || (fn.Name() != "Encode" && fn.Name() != "EncodeAware") || fn.Signature.Recv() == nil {
+			continue
+		}
+		n++
+		for _, call := range core.Calls(fn) {
+			f := core.CalleeFunc(call)
+			if f == nil || !core.IsMethod(f, core.PkgProto, "Buffer", f.Name()) || !strings.HasPrefix(f.Name(), "Put") {
+				continue
+			}
+			for _, a := range call.Common().Args[1:] {
+				clamped := core.DependsOn(a, func(x ssa.Value) bool {
+					cl, ok := x.(*ssa.Call)
+					if !ok {
+						return false
+					}
+					bi, ok := cl.Call.Value.(*ssa.Builtin)
+					return ok && (bi.Name() == "min" || bi.Name() == "max")
+				}, false)
+				if clamped {
+					bad = true
+					c.R.Bad(rule, core.CallKey(fn, call), cfg, p.Pos(call.Pos()), "the value written is min/max of a field and a bound: values beyond the bound are not what the decoder gives back")
+				}
+			}
+		}
+	}
+	if !bad {
+		c.R.Ok(rule, "encoders", cfg, "", sprintf("%d message encoders, none clamps a field", n))
+	}
+	c.R.Count("message encoders", n)
+	c.R.Floor(rule, cfg, n, 10)
 }
